@@ -88,6 +88,8 @@ struct Player {
 const P: Player = Player { name: "pa", id: 0x1111_1111_1111_4111_8111_1111_1111_1111 };
 const Q: Player = Player { name: "aq", id: 0x2222_2222_2222_4222_8222_2222_2222_2222 };
 const PQ: Player = Player { name: "pq", id: 0x3333_3333_3333_4333_8333_3333_3333_3333 };
+/// a name outside [A-Za-z0-9_] (an offline-mode or custom-authentication name): lists apply to it like to any other
+const PX: Player = Player { name: "p! x", id: 0x4444_4444_4444_4444_8444_4444_4444_4444 };
 
 // ---------------------------------------------------------------------------------------
 // model -> passage::config
@@ -509,7 +511,8 @@ fn filters(max_rules: usize) -> Vec<Filter> {
 
 fn target_shapes() -> Vec<Meta> {
     let mut v = vec![];
-    for k in [None, Some("v"), Some("w"), Some("x")] {
+    // (a key that is present with an empty value is present: a marker label such as `maintenance: ""`)
+    for k in [None, Some("v"), Some("w"), Some("x"), Some("")] {
         for j in [None, Some("v")] {
             let mut m: Meta = vec![];
             if let Some(k) = k {
@@ -666,7 +669,7 @@ pub fn run(cli: Cli) -> ! {
 pub fn core(rep: &Report, thorough: bool) {
     let cx = Ctx { rep, evals: AtomicU64::new(0), refused: AtomicU64::new(0), routed: AtomicU64::new(0), filtered_some: AtomicU64::new(0) };
     let shapes = target_shapes();
-    let players = [P, Q, PQ];
+    let players = [P, Q, PQ, PX];
     // the same adapter instance is asked about these hosts one after the other; two of them differ only in
     // case (the host scopes are the case-sensitive patterns ^a\. and ^b\.), in both orders
     // the last four contain the plain host name "a.example" of the fourth scope without being equal to it
